@@ -505,9 +505,10 @@ class C03(PropertyCheck):
 
     def theorems_for(self, case):
         return {
-            "convolve": ["C03.convolve_eq_true_convolution", "C03.non_interference"],
-            "operator": ["C03.convolve_eq_true_convolution"],
-            "matrix": ["C03.convolve_matrix_columnwise"],
+            "convolve": ["C03.convolve_eq_true_convolution", "C03.convolve_no_blurring_eq_true_convolution",
+                         "C03.non_interference", "C03.convolver_defined_iff", "C03.even_kernel_rejected"],
+            "operator": ["C03.convolve_eq_true_convolution", "C03.convolve_is_linear"],
+            "matrix": ["C03.convolve_matrix_columnwise", "C03.convolve_matrix_is_linear"],
             "same": ["C03.whole_frame_agrees"],
             "simulate": ["C03.whole_frame_agrees", "C03.simulated_zero_residual"],
         }.get(case["kind"], ["C03.*"])
